@@ -546,6 +546,7 @@ func TestVerifBabeVerify(t *testing.T) {
 	}
 
 	unrealised := 0
+	lotTable := map[string]string{} // "cfg|assigned|wins" -> claim kind the specification prescribes
 	for _, b := range behs {
 		for si, raw := range b.Steps {
 			var st vbvStep
@@ -585,6 +586,7 @@ func TestVerifBabeVerify(t *testing.T) {
 						res.Extra["panics_on_rejected_blocks"] = pm
 					}
 				case "claim":
+					lotTable[fmt.Sprintf("%s|%v|%v", o.Cfg, o.Assigned, o.Wins)] = st.Res.Kind
 					kind, verdict, errText, pm, desc, ok := w.claim(t, o)
 					if !ok {
 						continue
@@ -635,6 +637,78 @@ func TestVerifBabeVerify(t *testing.T) {
 				}
 			}
 		}
+	}
+	// (S6) sweep: EVERY (configuration, authority, slot) of the slot window of a world goes through the
+	// real claimSlot; what it claims is compared with the specification's lottery table (collected above
+	// from the TLC-generated "claim" cases) and every produced claim is sealed and verified.
+	if len(lotTable) == 12 {
+		sweepWorlds := worlds[:1]
+		if vThorough() {
+			sweepWorlds = worlds
+		}
+		claimed := map[string]int{}
+		for _, w := range sweepWorlds {
+			for _, cfg := range []string{"primary", "plain", "vrf"} {
+				for a := 0; a < w.n; a++ {
+					for k := 0; k < w.window; k++ {
+						slot := w.base + uint64(k)
+						sec := w.secAuthor(slot)
+						bl, valid := w.below(w.vrf(t, a, slot).out, a, slot)
+						if !valid {
+							t.Fatalf("VERIF-INFRA cannot attach own VRF output")
+						}
+						exp := lotTable[fmt.Sprintf("%s|%v|%v", cfg, sec == a, bl)]
+						ed := &epochData{randomness: w.rnd, authorityIndex: uint32(a), authorities: w.auths, threshold: w.thrU,
+							allowedSlots: types.AllowedSlots(vbvCfgByte(cfg))}
+						var pre *types.PreRuntimeDigest
+						var err error
+						pm := vTry(func() { pre, err = claimSlot(w.epoch, slot, ed, w.kps[a]) })
+						res.Case("claim-sweep", "")
+						res.Cmp()
+						desc := map[string]any{"n": w.n, "c1": w.c1, "c2": w.c2, "epoch": w.epoch, "slot": slot, "secAuthor": sec, "authority": a, "below": bl}
+						if pm != "" {
+							res.Fail(-1, 0, "claim-sweep", "claimSlot", exp, pm, fmt.Sprintf("C24/claim/cfg=%s/panic", cfg), desc)
+							continue
+						}
+						if err != nil || pre == nil {
+							if exp != "none" {
+								n, _ := res.Extra["lottery_missed_claims"].(int)
+								res.Extra["lottery_missed_claims"] = n + 1
+							}
+							continue
+						}
+						kind := vbvKindOfDigest(pre)
+						claimed[cfg+"/"+kind]++
+						if kind != exp {
+							res.Fail(-1, 0, "claim-sweep", "kind", exp, fmt.Sprintf("%s world=%s", kind, vJSON(desc)),
+								fmt.Sprintf("C24/claim/cfg=%s,expected=%s,claimed=%s/unauthorised-own-claim", cfg, exp, kind), desc)
+						}
+						h := types.NewEmptyHeader()
+						h.ParentHash = w.parent.Hash()
+						h.Number = 1
+						rng.Read(h.StateRoot[:])
+						if err := h.Digest.Add(*pre); err != nil {
+							t.Fatalf("VERIF-INFRA digest add: %v", err)
+						}
+						sig, err := w.kps[a].Sign(vbvSealHash(t, h))
+						if err != nil {
+							t.Fatalf("VERIF-INFRA sign: %v", err)
+						}
+						if err := h.Digest.Add(types.SealDigest{ConsensusEngineID: types.BabeEngineID, Data: sig}); err != nil {
+							t.Fatalf("VERIF-INFRA digest add seal: %v", err)
+						}
+						verdict, errText, pm2 := w.verify(cfg, h)
+						res.Cmp()
+						if !verdict {
+							res.Fail(-1, 0, "claim-sweep", "own claim verifies", "true",
+								fmt.Sprintf("false err=%q %s world=%s", errText, pm2, vJSON(desc)),
+								fmt.Sprintf("C24/claim/cfg=%s,kind=%s/own-claim-rejected/%s", cfg, kind, vbvErrClass(errText, pm2)), desc)
+						}
+					}
+				}
+			}
+		}
+		res.Extra["sweep_claims_by_cfg_kind"] = claimed
 	}
 	res.Extra["worlds"] = len(worlds)
 	res.Extra["unrealised_cases"] = unrealised
